@@ -22,10 +22,13 @@ def gen_reopen(rng, cfg):
     elif r < 0.32:
         kind = "same-int-as-string"
         which = rng.choice(["store_depth", "store_width", "both"])
+        def enc(v):
+            v = int(v)
+            return rng.choice([str(v), str(v), "0" + str(v), " " + str(v), str(v) + " ", "+" + str(v), "00%d" % v])
         if which in ("store_depth", "both"):
-            c["store_depth"] = str(c["store_depth"])
+            c["store_depth"] = enc(c["store_depth"])
         if which in ("store_width", "both"):
-            c["store_width"] = str(c["store_width"])
+            c["store_width"] = enc(c["store_width"])
         expect = "accept"
     elif r < 0.37:
         kind = "same-extra-key"
